@@ -2373,3 +2373,248 @@ func mentionsRoot(info *types.Info, l ast.Expr, vars map[*types.Var]bool) bool {
 		}
 	}
 }
+
+// ---------------------------------------------------------------------------------------
+// C17: encoding a message does not write it. The server serialises whatever message a handler returns (possibly one it
+// shares between requests), the client whatever request the caller passes (possibly to several calls at once): an encoder
+// that assigns through its receiver - even to restore the value afterwards - makes concurrent calls see each other's
+// intermediate states. Rule: no emitted MarshalJSON method assigns a field, element or pointee reached from its receiver.
+func init() {
+	structuralRules["emitted.c17.encoders_readonly"] = func(w *World) []OblResult {
+		var probs []string
+		if w.Emitted == nil || w.EmittedClient == nil {
+			return []OblResult{structResult("C17.encoders.readonly", "", []string{"emitted package not loaded"})}
+		}
+		n := 0
+		for _, k := range w.sortedFuncNames() {
+			fi := w.Funcs[k]
+			if fi.Decl == nil || fi.Decl.Body == nil || (fi.Obj.Pkg() != w.Emitted.Types && fi.Obj.Pkg() != w.EmittedClient.Types) || fi.Obj.Name() != "MarshalJSON" {
+				continue
+			}
+			if !strings.Contains(filepath.Base(w.Fset.Position(fi.Decl.Pos()).Filename), "_") {
+				continue
+			}
+			sig := fi.Obj.Type().(*types.Signature)
+			if sig.Recv() == nil {
+				continue
+			}
+			n++
+			info := fi.Pkg.TypesInfo
+			recv := map[*types.Var]bool{sig.Recv(): true}
+			// the receiver object is found through the declaration's receiver identifier (types.Signature.Recv is the same object)
+			ast.Inspect(fi.Decl.Body, func(nd ast.Node) bool {
+				switch x := nd.(type) {
+				case *ast.AssignStmt:
+					for _, l := range x.Lhs {
+						if _, isIdent := l.(*ast.Ident); !isIdent && mentionsRoot(info, l, recv) {
+							probs = append(probs, fmt.Sprintf("%s assigns %s: an encoder writes the message it encodes (%s)", shortKey(fi.Obj), exprText(w.Fset, l), w.pos(x.Pos())))
+						}
+					}
+				case *ast.IncDecStmt:
+					if mentionsRoot(info, x.X, recv) {
+						probs = append(probs, fmt.Sprintf("%s modifies %s: an encoder writes the message it encodes (%s)", shortKey(fi.Obj), exprText(w.Fset, x.X), w.pos(x.Pos())))
+					}
+				case *ast.CallExpr:
+					if sel, ok := unparen(x.Fun).(*ast.SelectorExpr); ok {
+						if f, ok := info.Uses[sel.Sel].(*types.Func); ok && f.Pkg() != nil {
+							q := f.Pkg().Name() + "." + f.Name()
+							if (q == "proto.Reset" || q == "proto.Merge") && len(x.Args) > 0 && mentionsRoot(info, x.Args[0], recv) {
+								probs = append(probs, fmt.Sprintf("%s passes its receiver to %s as the target (%s)", shortKey(fi.Obj), q, w.pos(x.Pos())))
+							}
+						}
+					}
+				}
+				return true
+			})
+		}
+		if n == 0 {
+			probs = append(probs, "no emitted MarshalJSON method found: the rule would be vacuous")
+		}
+		return []OblResult{structResult("C17.encoders.readonly", "no emitted MarshalJSON method assigns a field, element or pointee reached from its receiver: serialising a message (a handler's response, a caller's request) never writes it, so messages shared between calls are only read", uniq(probs))}
+	}
+}
+
+// ---------------------------------------------------------------------------------------
+// C13: Go type names in emitted text are import-qualified. A message reached through a field's type (Field.Message) or an
+// RPC's request / response (Method.Input / Method.Output) may live in another Go package than the file being generated
+// (well-known types, sibling proto packages). protogen qualifies a GoIdent handed to P and adds the import; the bare GoName
+// of such a message printed into emitted code names a type the package does not have. Rule: in the Go emitters, no P
+// argument is (a local or struct field holding) `M.GoIdent.GoName` for an M obtained through .Message / .Input / .Output.
+func init() {
+	structuralRules["c13.qualified_types"] = func(w *World) []OblResult {
+		var probs []string
+		sites := 0
+		isProtogen := func(t types.Type, name string) bool {
+			if t == nil {
+				return false
+			}
+			if p, ok := t.Underlying().(*types.Pointer); ok {
+				t = p.Elem()
+			}
+			nt, ok := types.Unalias(t).(*types.Named)
+			return ok && nt.Obj().Pkg() != nil && strings.HasSuffix(nt.Obj().Pkg().Path(), "compiler/protogen") && nt.Obj().Name() == name
+		}
+		for _, pkgPath := range w.sortedRepoPkgs() {
+			pkg := w.ByPath[pkgPath]
+			if pkg == nil || pkg.TypesInfo == nil || !(strings.HasSuffix(pkgPath, "/internal/httpgen") || strings.HasSuffix(pkgPath, "/internal/clientgen")) {
+				continue
+			}
+			info := pkg.TypesInfo
+			// every value written to a struct field of this package (assignments and composite literals)
+			fieldWrites := map[*types.Var][]ast.Expr{}
+			// single-definition locals per function body
+			type fnBody struct {
+				obj  *types.Func
+				body *ast.BlockStmt
+			}
+			var bodies []fnBody
+			for _, file := range pkg.Syntax {
+				if strings.HasSuffix(w.Fset.Position(file.Pos()).Filename, "_test.go") {
+					continue
+				}
+				ast.Inspect(file, func(n ast.Node) bool {
+					switch x := n.(type) {
+					case *ast.FuncDecl:
+						if x.Body != nil {
+							if obj, ok := info.Defs[x.Name].(*types.Func); ok {
+								bodies = append(bodies, fnBody{obj, x.Body})
+							}
+						}
+					case *ast.AssignStmt:
+						if len(x.Lhs) == len(x.Rhs) {
+							for i, l := range x.Lhs {
+								if sel, ok := unparen(l).(*ast.SelectorExpr); ok {
+									if v, ok := info.Uses[sel.Sel].(*types.Var); ok && v.IsField() {
+										fieldWrites[v] = append(fieldWrites[v], x.Rhs[i])
+									}
+								}
+							}
+						}
+					case *ast.CompositeLit:
+						for _, el := range x.Elts {
+							if kv, ok := el.(*ast.KeyValueExpr); ok {
+								if id, ok := kv.Key.(*ast.Ident); ok {
+									if v, ok := info.Uses[id].(*types.Var); ok && v.IsField() {
+										fieldWrites[v] = append(fieldWrites[v], kv.Value)
+									}
+								}
+							}
+						}
+					}
+					return true
+				})
+			}
+			for _, fb := range bodies {
+				fb := fb
+				localDefs := func(v *types.Var) []ast.Expr {
+					var defs []ast.Expr
+					ast.Inspect(fb.body, func(nd ast.Node) bool {
+						if as, ok := nd.(*ast.AssignStmt); ok && len(as.Lhs) == len(as.Rhs) {
+							for i, l := range as.Lhs {
+								if id, ok := l.(*ast.Ident); ok && (info.Defs[id] == v || info.Uses[id] == v) {
+									defs = append(defs, as.Rhs[i])
+								}
+							}
+						}
+						return true
+					})
+					return defs
+				}
+				// foreignMsg: the expression denotes a message obtained through .Message / .Input / .Output
+				var foreignMsg func(e ast.Expr, depth int) bool
+				foreignMsg = func(e ast.Expr, depth int) bool {
+					if depth > 5 {
+						return false
+					}
+					switch x := unparen(e).(type) {
+					case *ast.SelectorExpr:
+						if (x.Sel.Name == "Message" && isProtogen(info.TypeOf(x.X), "Field")) || ((x.Sel.Name == "Input" || x.Sel.Name == "Output") && isProtogen(info.TypeOf(x.X), "Method")) {
+							return true
+						}
+						if v, ok := info.Uses[x.Sel].(*types.Var); ok && v.IsField() && v.Pkg() == pkg.Types {
+							for _, d := range fieldWrites[v] {
+								if foreignMsg(d, depth+1) {
+									return true
+								}
+							}
+						}
+					case *ast.Ident:
+						if v, ok := info.Uses[x].(*types.Var); ok && !v.IsField() {
+							for _, d := range localDefs(v) {
+								if foreignMsg(d, depth+1) {
+									return true
+								}
+							}
+						}
+					}
+					return false
+				}
+				// bareForeignName: the expression is (or holds) the unqualified Go name of such a message
+				var bareForeignName func(e ast.Expr, depth int) bool
+				bareForeignName = func(e ast.Expr, depth int) bool {
+					if depth > 5 {
+						return false
+					}
+					switch x := unparen(e).(type) {
+					case *ast.SelectorExpr:
+						if x.Sel.Name == "GoName" {
+							if in, ok := unparen(x.X).(*ast.SelectorExpr); ok && in.Sel.Name == "GoIdent" && isProtogen(info.TypeOf(in.X), "Message") {
+								return foreignMsg(in.X, 0)
+							}
+							return false
+						}
+						if v, ok := info.Uses[x.Sel].(*types.Var); ok && v.IsField() && v.Pkg() == pkg.Types {
+							for _, d := range fieldWrites[v] {
+								if bareForeignName(d, depth+1) {
+									return true
+								}
+							}
+						}
+					case *ast.Ident:
+						if v, ok := info.Uses[x].(*types.Var); ok && !v.IsField() {
+							for _, d := range localDefs(v) {
+								if bareForeignName(d, depth+1) {
+									return true
+								}
+							}
+						}
+					case *ast.BinaryExpr:
+						return bareForeignName(x.X, depth+1) || bareForeignName(x.Y, depth+1)
+					case *ast.CallExpr:
+						// string(x), fmt.Sprintf("...", x): the name is still bare
+						for _, a := range x.Args {
+							if bareForeignName(a, depth+1) {
+								return true
+							}
+						}
+					}
+					return false
+				}
+				ast.Inspect(fb.body, func(n ast.Node) bool {
+					call, ok := n.(*ast.CallExpr)
+					if !ok {
+						return true
+					}
+					sel, ok := call.Fun.(*ast.SelectorExpr)
+					if !ok || sel.Sel.Name != "P" || !isProtogen(info.TypeOf(sel.X), "GeneratedFile") {
+						return true
+					}
+					for _, a := range call.Args {
+						if isProtogen(info.TypeOf(a), "GoIdent") {
+							sites++
+							continue
+						}
+						if bareForeignName(a, 0) {
+							probs = append(probs, fmt.Sprintf("%s prints %s, the unqualified Go name of a message that may belong to another Go package (reached through .Message / .Input / .Output): the emitted package does not compile for such a definition; hand P the GoIdent (%s)", shortKey(fb.obj), exprText(w.Fset, a), w.pos(a.Pos())))
+						}
+					}
+					return true
+				})
+			}
+		}
+		if sites == 0 {
+			probs = append(probs, "no P argument of type protogen.GoIdent found in the Go emitters: the rule would be vacuous")
+		}
+		return []OblResult{structResult("C13.types.import_qualified", "in protoc-gen-go-http and protoc-gen-go-client no P call prints the bare GoName of a message obtained through Field.Message, Method.Input or Method.Output (directly, through a local, a struct field of the generator or a string built from it): such types reach emitted Go only as protogen.GoIdent, which protogen import-qualifies", uniq(probs))}
+	}
+}
